@@ -314,6 +314,60 @@ def build() -> Check:
         ck.ob("R4.terminal-set", "state.py:ExecutionState.track_replay", got == term,
               f"{where} counts {sorted(got)} as completed; the operations that can no longer change are {sorted(term)} "
               f"(extra: {sorted(got - term)}, missing: {sorted(term - got)})")
+    # R6 (interpretive, small histories): the switch from REPLAY to NEW happens exactly when every completed operation that a replay can
+    # still reach has been passed. A context that is replayed from its record does not run its body again, so the operations recorded inside
+    # it are never visited one by one: they must not keep the logger muted once the context itself has been passed.
+    from sa.values import EnumVal, SeqVal
+    sc_ = prog.cls("state", "ExecutionState")
+    opc_ = prog.cls("lambda_service", "Operation")
+    st_ = prog.cls("lambda_service", "OperationStatus")
+    ty_ = prog.cls("lambda_service", "OperationType")
+    rs_ = prog.cls("state", "ReplayStatus")
+    tr_ = sc_.methods.get("track_replay")
+    if tr_ is None:
+        raise AnalysisError("ExecutionState.track_replay not found")
+
+    def mkop(i, typ, status, parent=None):
+        o = Obj(opc_, label=f"op_{i}")
+        o.fields.update(operation_id=Const(i), operation_type=EnumVal(ty_.fq, typ, ty_.enum_members[typ]), status=EnumVal(st_.fq, status, st_.enum_members[status]),
+                        parent_id=Const(parent) if parent else NONE, context_details=NONE, name=NONE)
+        return o
+
+    SCEN = [
+        ("a completed context C holding a completed step; C is passed", [("C", "CONTEXT", "SUCCEEDED", None), ("s", "STEP", "SUCCEEDED", "C")], [], "C", True),
+        ("a failed context F holding a completed step; F is passed", [("F", "CONTEXT", "FAILED", None), ("s", "STEP", "SUCCEEDED", "F")], [], "F", True),
+        ("nested completed contexts C > G > s; C is passed", [("C", "CONTEXT", "SUCCEEDED", None), ("G", "CONTEXT", "SUCCEEDED", "C"), ("s", "STEP", "SUCCEEDED", "G")], [], "C", True),
+        ("two completed steps a, b; only a is passed", [("a", "STEP", "SUCCEEDED", None), ("b", "STEP", "SUCCEEDED", None)], [], "a", False),
+        ("two completed steps a, b; a was passed, now b", [("a", "STEP", "SUCCEEDED", None), ("b", "STEP", "SUCCEEDED", None)], ["a"], "b", True),
+        ("completed step a followed by a started step x; a is passed", [("a", "STEP", "SUCCEEDED", None), ("x", "STEP", "STARTED", None)], [], "a", True),
+        ("completed step a followed by a step waiting for its retry; a is passed", [("a", "STEP", "SUCCEEDED", None), ("p", "STEP", "PENDING", None)], [], "a", True),
+        ("completed step a followed by a step ready for its retry; a is passed", [("a", "STEP", "SUCCEEDED", None), ("r", "STEP", "READY", None)], [], "a", True),
+        ("the execution record and one completed step a; a is passed", [("e", "EXECUTION", "STARTED", None), ("a", "STEP", "SUCCEEDED", None)], [], "a", True),
+        ("a context still open (suspended inside) with a completed step s; s is passed", [("C", "CONTEXT", "STARTED", None), ("s", "STEP", "SUCCEEDED", "C")], [], "s", True),
+        ("completed context C (holding s) and a later completed step b; only C is passed", [("C", "CONTEXT", "SUCCEEDED", None), ("s", "STEP", "SUCCEEDED", "C"), ("b", "STEP", "SUCCEEDED", None)], [], "C", False),
+    ]
+    bad6 = []
+    for label, hist, before, visit, want_new in SCEN:
+        def sf(it, state, hist=hist, before=before):
+            o = Obj(sc_, label="st")
+            o.fields.update(operations=DictVal({h[0]: mkop(*h) for h in hist}), _visited_operations=SeqVal("set", [Const(b_) for b_ in before]),
+                            _replay_status=EnumVal(rs_.fq, "REPLAY", rs_.enum_members["REPLAY"]))
+            for n_ in ast.walk(tr_.node):
+                if isinstance(n_, ast.Attribute) and isinstance(n_.value, ast.Name) and n_.value.id == "self" and n_.attr.endswith("_lock"):
+                    o.fields[n_.attr] = Sym(n_.attr, TypeRef(prim="ext:threading.Lock"))
+            return o
+
+        pn = [p_.arg for p_ in tr_.node.args.args if p_.arg != "self"][0]
+        trs = pm.run_function(tr_, sf, lambda it, state, visit=visit: {pn: Const(visit)}, cell=("track_replay", label), loop_iters=8, while_iters=10,
+                              ext_calls={"builtins.set": lambda it, a, k, n: SeqVal("set", list(a[0].items) if a and isinstance(a[0], SeqVal) else [])})
+        outcomes = set()
+        for t in trs:
+            to_new = any(e.kind == "SETATTR" and e.data["attr"] == "_replay_status" and "NEW" in str(e.data.get("value")) for e in t.events)
+            outcomes.add(to_new if t.outcome == "return" else f"raises {t.exc_class()}")
+        if outcomes != {want_new}:
+            bad6.append(f"{label}: the logger {'must be un-muted' if want_new else 'must stay muted'}, analysis finds {sorted(map(str, outcomes))}")
+    ck.floor("replay_boundary_scenarios", len(SCEN), 10)
+    ck.ob("R6.boundary-on-small-histories", fn_construct(tr_), not bad6, f"{len(bad6)}/{len(SCEN)}: " + "; ".join(bad6[:2]) if bad6 else f"{len(SCEN)} scenarios")
     return ck
 
 
